@@ -184,6 +184,7 @@ fn main() {
                     "trace_hash": format!("{:016x}", rep.trace_hash),
                     "state_hash": format!("{:016x}", rep.state_hash),
                     "probes": rep.probes,
+                    "keyed": rep.keyed,
                     "faults": rep.faults,
                     "flags": rep.flags,
                     "steps": rep.steps,
